@@ -55,11 +55,26 @@ let run_line (toks : string list) : string =
   let out = Buffer.create 256 in
   let stop = ref false in
   let bad_answers = ref 0 in
+  let bad_answers3 = ref 0 in
   Stdlib.List.iteri (fun idx call ->
     if not !stop then begin
       if idx > 0 then Buffer.add_string out " ; ";
       let recs = (try Hashtbl.find traces idx with Not_found -> []) in
       Stdlib.List.iter (fun a -> if not (answer_ok a) then incr bad_answers) recs;
+      (* the further hypotheses of the round-trip theorems C01_stream_roundtrip_main_path(_meta) on every recorded
+         answer of the main path (answer_ok3 of proofs/Roundtrip_defs.v: size, clean tail, and the pending bits the
+         back end was invoked on are the first bits it wrote): the first answer of a call sees the encoder's pending
+         bits at call entry, later ones what the previous answer left *)
+      (if call.[0] <> 's' && call.[0] <> 't' then begin
+        let s1 = ensure_initialized !s in
+        let rec chk lb lbb = function
+          | [] -> ()
+          | a :: t -> (if not a.a_fast && not (answer_ok3 lb lbb a) then begin incr bad_answers3;
+              if Sys.getenv_opt "VERIF_DEBUG3" <> None then
+                prerr_endline (Printf.sprintf "answer_ok3 fails at call %d: answer_ok=%b size_ok=%b tail_clean=%b carry_kept=%b pending=%d/%d a_lb=%d a_lbb=%d last=%b outlen=%d"
+                  idx (answer_ok a) (size_ok a) (tail_clean a) (carry_keptb lb lbb a) (int_of_n lb) (int_of_n lbb) (int_of_n a.a_lb) (int_of_n a.a_lbb) a.a_is_last
+                  (Stdlib.List.length a.a_out)) end); chk a.a_lb a.a_lbb t in
+        chk s1.last_bytes s1.last_bytes_bits recs end);
       let h = call.[0] and rest = Stdlib.String.sub call 1 (Stdlib.String.length call - 1) in
       let fin s' = Printf.sprintf "%d %d" (if is_finished s' then 1 else 0) (if has_more_output s' then 1 else 0) in
       match h with
@@ -105,6 +120,7 @@ let run_line (toks : string list) : string =
          | OutOfFuel -> stop := true; Buffer.add_string out "OUTOFFUEL")
     end) !calls;
   if !bad_answers > 0 then Buffer.add_string out (Printf.sprintf " ## BADANSWERS=%d" !bad_answers);
+  if !bad_answers3 > 0 then Buffer.add_string out (Printf.sprintf " ## BADANSWERS3=%d" !bad_answers3);
   Buffer.contents out
 (* S <obs>;<obs>...   obs = kind,op,offered,cap,ret,consumed,produced,fin,more,finacc,flushing *)
 let spec_line (t : string) : string =
